@@ -365,7 +365,12 @@ pub fn mode_of(c: &E2eCase) -> String {
 
 fn execute_in(c: &E2eCase, dir: &Path) -> Result<CaseReport, Failure> {
   let c = &normalise(c.clone());
+  let t0 = Instant::now();
   let r = run_case(c, dir);
+  if std::env::var("VERIF_E2E_TIMING").is_ok() {
+    // development aid: where the wall time of the child-process engine goes
+    eprintln!("e2e-timing {:6} ms {} events={} {}", t0.elapsed().as_millis(), mode_of(c), total_events(c), c.appenders.iter().map(|a| kind_tag(&a.kind)).collect::<Vec<_>>().join("+"));
+  }
   let f = match r {
     Err(f) if f.property == P && (c.how != How::Plain || c.exit_after) => f,
     other => return other,
